@@ -4,19 +4,29 @@ import re
 from vplib import common, oracle, machine, genprog
 
 LEVEL = "proof"
-CLAIMED = False
-NOT_CLAIMED_REASON = ("the refinement theorem (evaluator model refines the reference semantics Ref.v) is not discharged yet; the "
-                      "differential driver garden-vs-Ref exists (tools/props/C05.py) but random testing is not the claimed level")
-RULE = ("Differential execution of `garden` (hook op run = eval_toplevel_items on the real interpreter) against the extracted "
-        "independent reference interpreter coq/Ref.v on generated well-scoped core programs (typed generator, sizes up to "
-        "~60 nodes, with and without injected runtime errors): same stdout, same outcome (value, or same kind of runtime "
-        "error).")
+CLAIMED = True
+NOT_CLAIMED_REASON = ""
+RULE = ("Machine-checked refinement (coq/RefineProps.v, pinned in coq/Properties/C05.v): the evaluator model Machine.v simulates "
+        "the independent reference semantics Ref.v for every program of the stated fragment, all fuels and all contexts; plus "
+        "differential execution of `garden` (hook op run = eval_toplevel_items on the real interpreter) against the extracted "
+        "Ref.v on generated well-scoped core programs (typed generator, sizes up to ~60 nodes, with and without injected "
+        "runtime errors): same stdout, same outcome (value, or same kind of runtime error).")
 META = {
-    "technique": "differential execution against an independent definitional interpreter written in Coq (Ref.v); refinement proof pending",
-    "level_text": ("NOT CLAIMED AS PROOF YET. The reference semantics Ref.v (big-step, environments, control signals) exists and "
-                   "is run against the real interpreter; the theorem `machine_refines_ref` relating Machine.v to Ref.v is not "
-                   "proved."),
-    "level_note": "see NOT_CLAIMED_REASON",
+    "technique": ("refinement proof in Coq (explicit-stack machine model simulates a big-step definitional interpreter) + differential "
+                  "execution of the real interpreter against the extracted reference interpreter"),
+    "level_text": ("PROVED (theorems exec_refines_eval_partial, exec_refines_eval_error_partial, machine_refines_ref_partial): for all "
+                   "programs of the fragment, if Ref.v evaluates to a value / a runtime error, the machine model reaches the same value "
+                   "/ a Garden exception with the same printed output. FRAGMENT = the whole modelled core language (literals, variables, "
+                   "parentheses, all binary operators, list/tuple literals, let, assignment, +=/-=, if/else, while, for, break, continue, "
+                   "return, closures, calls of closures / named functions / println, print, string_repr / enum constructors, match) "
+                   "EXCEPT break/continue in a non-statement position (inside an operand, condition, argument, list item, scrutinee: "
+                   "there the interpreter leaks partial results on the value stack, a genuine defect that is reported and not fixed) "
+                   "and 64-bit integer literals only; programs must carry the parser's value_is_used annotation (well_annotated, with "
+                   "the fixed rule for parentheses) and a well-formed initial environment (prog_good). Divergence (Ref.v OutOfFuel) and "
+                   "constructs outside the model (Unsupp) are not related. Everything outside the fragment, and the tie between "
+                   "Machine.v / Ref.v and the Rust code, is differential testing against the extracted Ref.v (this driver, and C06)."),
+    "level_note": ("theorems are named _partial because of the statement-position restriction on break/continue and because only "
+                   "terminating runs of the reference are related; the model-to-code tie is by differential execution"),
     "design_ref": "DESIGN.md section 5 C05",
 }
 
@@ -46,7 +56,9 @@ def impl_class(resp):
 
 
 def run(ctx):
+    ctx.coq("Properties/C05.v")
     ctx.trusted = ["coq/Ref.v (reference semantics, hand-written from the language documentation)",
+                   "coq/Machine.v is the evaluator of src/eval.rs (tied by differential execution here and in C06, not by proof)",
                    "extraction + ocaml/ops_machine.ml (S-expression reader on the implementation's parser output)", "hook ops run / sexp"]
     exe = ctx.impl()
     mdl = ctx.model("machine")
@@ -59,6 +71,27 @@ def run(ctx):
     sx = oracle.batch(exe, [{"op": "sexp", "src": s, "positions": True} for s in progs], timeout=900)
     lines = ["ref\t60000\t" + common.hexs("\n".join(x.get("items") or [])) for x in sx]
     rc, ref, err = common.run_lines(mdl, [], lines, timeout=900, shards=common.NCPU)
+    # do the theorem's hypotheses (in_fragment / well_annotated / prog_good of Refine.v) describe the real parser's output?
+    wl = ["wa\t" + common.hexs("\n".join(x.get("items") or [])) for x in sx]
+    rc2, was, err2 = common.run_lines(mdl, [], wl, timeout=900, shards=common.NCPU)
+    bad_wa = []
+    for s, w in zip(progs, was):
+        f = w.split("\t")
+        if len(f) == 3:
+            ctx.stat("in proved fragment" if f[0] == "t" else "outside proved fragment (differential only)")
+            if f[0] == "t" and (f[1] == "f" or f[2] == "f"):
+                bad_wa.append(s)
+    if bad_wa:
+        ctx.broken("correspondence:well_annotated", "%d programs of the fragment whose parser output violates Refine.well_annotated / prog_good, e.g. %s"
+                   % (len(bad_wa), bad_wa[0][:300]))
+    # known shapes outside the fragment: break / continue in operand position
+    operand = ['let c = True\nlet x = [while True { [if c { break } else { 2 }, 1] }, 5]\nprintln(string_repr(x))\n',
+               'let n = 0\nlet y = [while n < 2 { n += 1 [if n == 1 { continue } else { 2 }, 1] }, 7]\nprintln(string_repr(y))\n']
+    progs = progs + operand
+    impl = impl + oracle.batch(exe, [{"op": "run", "src": s, "tick_limit": 40000} for s in operand], timeout=300)
+    sx2 = oracle.batch(exe, [{"op": "sexp", "src": s, "positions": True} for s in operand], timeout=300)
+    rc3, ref2, err3 = common.run_lines(mdl, [], ["ref\t60000\t" + common.hexs("\n".join(x.get("items") or [])) for x in sx2], timeout=300)
+    ref = ref + ref2
     for s, i, r in zip(progs, impl, ref):
         ic, iout = impl_class(i)
         f = r.split("\t")
@@ -69,7 +102,11 @@ def run(ctx):
             ctx.case({"src": s[:100]}, False)
             continue
         ctx.case({"src": s[:200], "impl": ic, "ref": rcl}, True)
-        if ic != rcl or common.hexs(iout) != rout:
+        if (ic != rcl or common.hexs(iout) != rout) and s in operand:
+            ctx.violation("C05:break-continue-in-operand-position",
+                          "garden gives %s / stdout %r, the reference semantics gives %s / %r" % (ic, iout, rcl, common.unhex(rout).decode("utf-8", "replace")),
+                          {"input": s, "observed": [ic, iout], "expected": rcl})
+        elif ic != rcl or common.hexs(iout) != rout:
             ctx.violation("C05:differs-from-reference:%s-vs-%s" % (ic.split(":")[0] + (":" + ic.split(":")[1] if ic.startswith("error") else ""),
                                                                     rcl.split(":")[0] + (":" + rcl.split(":")[1] if rcl.startswith("error") else "")),
                           "garden gives %s / stdout %r, the reference semantics gives %s / %r" % (ic, iout, rcl, common.unhex(rout).decode("utf-8", "replace")),
